@@ -20,6 +20,8 @@ change a *declaration* instead.  Each lint below decides one such mechanism as a
   format-arity         `"..%s..%s" % (a,)`-style formatting whose literal placeholder count cannot match the
                        operand (tuple of another length, or the lost-parentheses form `f(fmt % a, b)`): raises
                        TypeError on the path that executes it
+  loop-closure         a function / lambda / coroutine defined in a loop that reads the loop variables as free
+                       variables and only runs after the iteration (task, callback, stored): it sees the last iteration
   rebound-constant     a module-level name bound twice with an import-time use in between (a table built at import
                        captured the first object, functions that look the name up later get the second)
   table-concat         two adjacent string literals on one line inside a collection literal of strings (a lost
@@ -472,7 +474,122 @@ def _import_time_nodes(st):
         stack.extend(ast.iter_child_nodes(n))
 
 
-LINTS = (("rebound-constant", rebound_constant), ("shared-class-state", shared_class_state), ("stateful-cache", stateful_cache),
+# ---------------------------------------------------------------------------------------- loop-closure
+DEFERRING = {"create_task", "create_logged_task", "ensure_future", "call_soon", "call_later", "call_at", "call_soon_threadsafe",
+             "add_done_callback", "run_in_executor", "submit", "subscribe", "subscribe_async", "append", "appendleft", "add",
+             "setdefault", "partial", "Thread", "Timer", "start_soon", "schedule_task", "gather", "wait", "as_completed"}
+
+
+def _bound_in(node) -> Set[str]:
+    out = set()
+    for n in ast.walk(node):
+        if isinstance(n, ast.Name) and isinstance(n.ctx, ast.Store):
+            out.add(n.id)
+    return out
+
+
+def _free_loads(fn) -> Set[str]:
+    params = {a.arg for a in fn.args.posonlyargs + fn.args.args + fn.args.kwonlyargs}
+    if fn.args.vararg:
+        params.add(fn.args.vararg.arg)
+    if fn.args.kwarg:
+        params.add(fn.args.kwarg.arg)
+    body = fn.body if isinstance(fn.body, list) else [fn.body]
+    local = set()
+    for b in body:
+        local |= _bound_in(b)
+    loads = set()
+    for b in body:
+        for n in ast.walk(b):
+            if isinstance(n, ast.Name) and isinstance(n.ctx, ast.Load):
+                loads.add(n.id)
+    return loads - params - local
+
+
+def loop_closure(repo: Repo, rels: Iterable[str]) -> List[Finding]:
+    """A function / lambda / coroutine function defined inside a loop that reads the loop's variables as free variables
+    and runs only after the iteration (scheduled as a task, registered as a callback, stored): it sees the values of the
+    LAST iteration, not of the one that created it."""
+    out: List[Finding] = []
+    for rel in rels:
+        mod = repo.modules.get(rel)
+        if mod is None:
+            continue
+        for loop in [n for n in ast.walk(mod.tree) if isinstance(n, (ast.For, ast.AsyncFor, ast.While))]:
+            loop_vars = (_bound_in(loop.target) if hasattr(loop, "target") else set())
+            for st in loop.body:
+                loop_vars |= {n.id for n in ast.walk(st) if isinstance(n, ast.Name) and isinstance(n.ctx, ast.Store)
+                              and not any(isinstance(a, (ast.FunctionDef, ast.AsyncFunctionDef, ast.Lambda))
+                                          and a is not st for a in _enclosing_defs(st, n))}
+            if not loop_vars:
+                continue
+            # closures defined directly in this loop's body (not inside a nested def, not in a nested loop's own scope)
+            for fn in _defs_in_loop(loop):
+                free = _free_loads(fn) & loop_vars
+                if not free:
+                    continue
+                name = getattr(fn, "name", None)
+                deferred = None
+                if isinstance(fn, ast.AsyncFunctionDef):
+                    for c in _calls_in_loop(loop, fn):
+                        if isinstance(c.func, ast.Name) and c.func.id == name and not isinstance(getattr(c, "_parent", None), ast.Await):
+                            deferred = c
+                elif name is not None or isinstance(fn, ast.Lambda):
+                    for c in _calls_in_loop(loop, fn):
+                        cal = (ap(c.func) or "").split(".")[-1]
+                        args = list(c.args) + [k.value for k in c.keywords]
+                        hit = any((isinstance(a, ast.Name) and a.id == name) or a is fn for a in args)
+                        if hit and cal in DEFERRING:
+                            deferred = c
+                if deferred is not None:
+                    out.append((mod, fn, f"{name or '<lambda>'} in loop at line {loop.lineno}" if False else
+                                f"{_owner_name(fn)}: closure over {'/'.join(sorted(free))}",
+                                f"`{name or 'lambda'}` is defined inside a loop, reads the loop variable(s) "
+                                f"{', '.join(sorted(free))} as free variables and is only run later "
+                                f"(`{ast.unparse(deferred)[:70]}`): when it runs it sees the values of the last iteration - "
+                                f"bind them as default arguments or pass them in"))
+    return out
+
+
+def _enclosing_defs(top, node):
+    p = getattr(node, "_parent", None)
+    while p is not None and p is not top:
+        yield p
+        p = getattr(p, "_parent", None)
+
+
+def _defs_in_loop(loop):
+    stack = list(loop.body)
+    while stack:
+        n = stack.pop()
+        if isinstance(n, (ast.FunctionDef, ast.AsyncFunctionDef, ast.Lambda)):
+            yield n
+            continue
+        stack.extend(ast.iter_child_nodes(n))
+
+
+def _calls_in_loop(loop, skip):
+    stack = list(loop.body)
+    while stack:
+        n = stack.pop()
+        if n is skip and not isinstance(n, ast.Lambda):
+            continue
+        if isinstance(n, ast.Call):
+            yield n
+        stack.extend(ast.iter_child_nodes(n))
+
+
+def _owner_name(node) -> str:
+    p = getattr(node, "_parent", None)
+    names = []
+    while p is not None:
+        if isinstance(p, (ast.FunctionDef, ast.AsyncFunctionDef, ast.ClassDef)):
+            names.append(p.name)
+        p = getattr(p, "_parent", None)
+    return ".".join(reversed(names)) or "<module>"
+
+
+LINTS = (("loop-closure", loop_closure), ("rebound-constant", rebound_constant), ("shared-class-state", shared_class_state), ("stateful-cache", stateful_cache),
          ("override-signature", override_signature), ("copy-protocol", copy_protocol),
          ("builtin-eq-ne", builtin_eq_ne), ("format-arity", format_arity), ("table-concat", table_concat))
 
